@@ -612,7 +612,14 @@ impl Recovery {
 
         if let Some((start, end)) = live_segments_indices {
             live_segments = self.candidates.drain(start..=end).collect::<Vec<_>>();
-            nonlive_segments = mem::take(&mut self.candidates);
+            // What is left are the segments older than the live range followed by the ones newer
+            // than it. The newer ones are removed newest first: if the removal is interrupted, the
+            // remaining segment IDs must still be gapless or the next recovery fails.
+            let mut newer = self.candidates.split_off(start);
+            newer.reverse();
+            let mut older = mem::take(&mut self.candidates);
+            older.append(&mut newer);
+            nonlive_segments = older;
         } else {
             live_segments = Vec::new();
             nonlive_segments = mem::take(&mut self.candidates);
